@@ -8,4 +8,6 @@ let () =
   | _ :: "minblock" :: _ -> R_minblock.run ()
   | _ :: "lowlevel" :: _ -> R_lowlevel.run ()
   | _ :: "leak" :: _ -> R_leak.run ()
+  | _ :: "joint" :: _ -> R_joint.run ()
+  | _ :: "exc" :: _ -> R_exc.run ()
   | _ -> prerr_endline "usage: replay <topic> [args]"; exit 2
